@@ -17,7 +17,7 @@ from ..selftest import Seed
 from . import c04
 
 META = {
-    "technique": "who-may-mutate via ownership analysis, in-situ update shape, guard-order (dominance) of the dictionary arms, def-use of keys, thunk shape of literals",
+    "technique": "who-may-mutate via ownership analysis, in-situ update shape, guard-order (dominance) of the dictionary arms, def-use of keys, thunk shape of literals, value-independence of the arm guards",
     "level_text": "Static proof over all in-place write sites that only Join/Drop mutate a dictionary (and do so on the operand object itself, which is what makes aliases see updates), that dictionary arms are reached for every key value, that keys are not converted on the way to the lookup, and that literals are copied per evaluation. These are the two-step/alias mechanisms single-step tests cannot observe; map semantics over histories is not decided.",
     "level_note": "decides the structural clause below from source; does not decide the behaviour. Trusted: Python dict semantics; API facts of sa/fresh.py; `is_dict`/`isinstance(x, dict)` are the dictionary tests.",
     "explanation": (
@@ -25,7 +25,8 @@ META = {
         "Size are located by their dict tests; for the in-situ arms the store/del targets the parameter and the parameter itself is returned; "
         "every other in-place sink found by the freshness analysis must not sit under a dict test; every return that precedes a dictionary "
         "arm must be guarded by a type test that excludes dictionaries; key expressions are parameters (or constant elements of them) that "
-        "are not reassigned on the way; the literal reader wraps the parse-time dict in a copying thunk (shared with C04-R3)."),
+        "are not reassigned on the way; the literal reader wraps the parse-time dict in a copying thunk (shared with C04-R3)."
+        " R7: the guards of the in-situ dictionary arms test only kind and length of the operands, never the key or payload."),
     "assumptions": ["dict.get returns None for a missing key; a stored None value is indistinguishable (Klong has no None values)"],
 }
 
